@@ -1119,6 +1119,19 @@ class Executor:
             return ZV(res)
         return res
 
+    def user_eq(self, a, b):
+        """`==` of the analysed CODE between two objects of a sort whose class is declared
+        `value_equality` (user subclasses may define __eq__: dataclass-like components,
+        processors): identical objects are equal, otherwise an uninterpreted relation decides
+        (`!=` is its negation).  `is`, and `==` inside specifications, stay identity."""
+        if isinstance(a, ZV) and isinstance(b, ZV) and a.t.sort() == b.t.sort() and is_usort(a.t.sort()):
+            kl = self.spec.sort_classes.get(a.t.sort().name())
+            if kl is not None and getattr(kl, 'value_equality', False):
+                s = a.t.sort()
+                rel = z3.Function('user_eq_' + s.name(), s, s, z3.BoolSort())
+                return z3.Or(a.t == b.t, z3.And(a.t != none_of(s), b.t != none_of(s), rel(a.t, b.t)))
+        return None
+
     def eq(self, a, b, node=None):
         """Python == (identity-based for user objects: T4) as z3 Bool / bool."""
         a, b = deref(a), deref(b)
@@ -1207,6 +1220,10 @@ class Executor:
                 r = (not r) if isinstance(r, bool) else z3.Not(r)
             return Con(r) if isinstance(r, bool) else ZV(r)
         a, b = deref(a), deref(b)
+        if t in (ast.Eq, ast.NotEq) and (not self.spec_mode or getattr(self, 'code_eq', 0)):
+            r = self.user_eq(a, b)
+            if r is not None:
+                return ZV(r if t is ast.Eq else z3.Not(r))
         if t in (ast.Eq, ast.Is):
             r = self.eq(a, b, node)
             return Con(r) if isinstance(r, bool) else ZV(r)
